@@ -69,7 +69,7 @@ theorem mkdirat_inv {d : Fd} {n : Bytes} {m : Nat} {h h' : Hist} {x : Except Err
     x = .error (.os EBADF) ∨
     ∃ resp, (h ++ [(Call.mkdirat d n m, resp)]) <+: h' ∧
       ((resp = .unit ∧ x = .ok ()) ∨
-       (∃ e, resp = .err e ∧ (x = .error (.os e) ∨ ∃ s, x = .error (.panic s))) ∨
+       (∃ e, resp = .err e ∧ x = .error (.os e)) ∨
        (∃ s, x = .error (.badResp s))) := by
   unfold Sys.mkdirat at hr
   simp only [M.bind_def] at hr
@@ -123,27 +123,19 @@ theorem mkdirTolerant_ok_inv {cur : Fd} {part : Bytes} {perm : Nat} {h h' : Hist
   · refine ⟨resp, hpre.trans hp2, ?_⟩
     rcases hc with ⟨hresp, _⟩ | ⟨e, hresp, hxe⟩ | ⟨s, hxb⟩
     · exact Or.inl hresp
-    · rcases hxe with hxe | ⟨s, hxe⟩
-      · subst hxe
-        rcases hcase with ⟨a, ha, _⟩ | ⟨e', he, hfe⟩
-        · cases ha
-        · cases he
-          rcases hfe with ⟨hf, _⟩ | ⟨_, hxe⟩
-          · simp [Err.isFatal] at hf
-          · cases hxe
-            simp only [] at hr2
-            by_cases hee : e = EEXIST
-            · right; rw [hresp, hee]
-            · have : Err.os e ≠ Err.os EEXIST := by intro hc; cases hc; exact hee rfl
-              simp only [ne_eq, this, not_false_eq_true, ↓reduceIte] at hr2
-              obtain ⟨_, hxx⟩ := ret_inv hr2; cases hxx
-      · subst hxe
-        rcases hcase with ⟨a, ha, _⟩ | ⟨e', he, hfe⟩
-        · cases ha
-        · cases he
-          rcases hfe with ⟨_, hxe⟩ | ⟨hf, _⟩
-          · cases hxe
-          · simp [Err.isFatal] at hf
+    · subst hxe
+      rcases hcase with ⟨a, ha, _⟩ | ⟨e', he, hfe⟩
+      · cases ha
+      · cases he
+        rcases hfe with ⟨hf, _⟩ | ⟨_, hxe⟩
+        · simp [Err.isFatal] at hf
+        · cases hxe
+          simp only [] at hr2
+          by_cases hee : e = EEXIST
+          · right; rw [hresp, hee]
+          · have : Err.os e ≠ Err.os EEXIST := by intro hc; cases hc; exact hee rfl
+            simp only [ne_eq, this, not_false_eq_true, ↓reduceIte] at hr2
+            obtain ⟨_, hxx⟩ := ret_inv hr2; cases hxx
     · subst hxb
       rcases hcase with ⟨a, ha, _⟩ | ⟨e', he, hfe⟩
       · cases ha
